@@ -1165,3 +1165,81 @@ Print Assumptions C14_wiring_StripeMeasures_scaled_counts.
 
 End Wiring_C14.
 (* ---- WIRING-APPENDIX:END ---- *)
+
+(*BEGIN GenAgreeDimType_C14*)
+(* ------------------------------------------------------------------------------------ *)
+(* SOURCE TEXT of the numeric values (harness/translate/x_dimtype.py, see the appendix of Props/C01.v):
+   Element.numeric_value IS [numeric_value_of] and Dimension.numeric_values IS [numeric_values_jv] of
+   Model/DimValues.v - one value per VALID element of the (re-arranged) type definition, NaN for an absent or null
+   entry, 0 for 0 - which is the vector [vals] the theorems above take ([numeric_values] = its numbers).  The
+   C14_dimvalues_* theorems say what the model definitions mean. *)
+From CC Require Proofs.GenAgreeDimTypeNumeric Proofs.GenAgreeDimTypeComposeNumeric Proofs.DimValuesProofs.
+Section GenAgreeDimType_C14.   (* scopes and imports below end with the section *)
+Import Coq.Lists.List Coq.ZArith.ZArith Coq.Strings.String Coq.Bool.Bool CC.Base.XQ CC.Base.PyList CC.Base.PyDict
+       CC.Model.DimType CC.Model.PyDimension CC.Model.PyDimType CC.Model.DimValues CC.Model.Smoothing
+       CC.Gen.DimensionSrc CC.Gen.DimTypeSrc CC.Proofs.GenAgreeDimensionLib
+       CC.Proofs.GenAgreeDimTypeLib CC.Proofs.GenAgreeDimTypeElems CC.Proofs.GenAgreeDimTypeOrder CC.Proofs.GenAgreeDimTypeNumeric CC.Proofs.GenAgreeDimTypeComposeNumeric CC.Proofs.DimValuesProofs.
+Import Coq.Lists.List.ListNotations.
+Local Close Scope Q_scope.
+Local Open Scope Z_scope.
+Local Open Scope string_scope.
+
+Theorem C14_gen_dimtype_Element_numeric_value :
+  match src_Element_numeric_value with
+  | Some f => forall e idx xf t, f (mkPyElement (JDict e) idx xf t) = Ok (numeric_value_of e)
+  | None => True end.
+Proof. exact gen_dimtype_Element_numeric_value. Qed.
+Print Assumptions C14_gen_dimtype_Element_numeric_value.
+
+Theorem C14_gen_dimtype_Dimension_numeric_values :
+  match src_Dimension_numeric_values, src_Dimension_valid_elements with
+  | Some f, Some g => forall self els, g self = Ok els -> Forall el_is_dict els ->
+      f self = Ok (map (fun el => def_numeric_value (el_element_dict el)) els)
+  | _, _ => True end.
+Proof. exact gen_dimtype_Dimension_numeric_values. Qed.
+Print Assumptions C14_gen_dimtype_Dimension_numeric_values.
+
+Theorem C14_gen_dimtype_Dimension_numeric_values_all :
+  match src_Dimension_numeric_values, src_Dimension_valid_elements, src_Elements__hidden_transforms with
+  | Some f, Some _, Some h => forall t dd tr ty defs rids ids o ax hid, dim_reads' t dd tr ty defs rids ids o ax ->
+      (dtype_eqb t TMrSubvar = true ->
+       h (JList (reorder rids defs o)) (jd_get_default tr (JStr "insertions") (JList [])) = Ok hid) ->
+      f (mkPyDimension t (JDict dd) (JDict tr)) = Ok (numeric_values_jv (reorder rids defs o))
+  | _, _, _ => True end.
+Proof. exact gen_dimtype_Dimension_numeric_values_all. Qed.
+Print Assumptions C14_gen_dimtype_Dimension_numeric_values_all.
+
+Theorem C14_dimvalues_numeric_value_absent_is_nan e :
+jget e "numeric_value" = None \/ jget e "numeric_value" = Some JNone ->
+  xq_of_jv (numeric_value_of e) = NaN.
+Proof. exact (numeric_value_absent_is_nan e). Qed.
+Print Assumptions C14_dimvalues_numeric_value_absent_is_nan.
+
+Theorem C14_dimvalues_numeric_value_int_is_kept e z :
+jget e "numeric_value" = Some (JInt z) -> xq_of_jv (numeric_value_of e) = xofZ z.
+Proof. exact (numeric_value_int_is_kept e z). Qed.
+Print Assumptions C14_dimvalues_numeric_value_int_is_kept.
+
+Theorem C14_dimvalues_numeric_value_zero_is_not_nan e :
+jget e "numeric_value" = Some (JInt 0) -> is_nan (xq_of_jv (numeric_value_of e)) = false.
+Proof. exact (numeric_value_zero_is_not_nan e). Qed.
+Print Assumptions C14_dimvalues_numeric_value_zero_is_not_nan.
+
+Theorem C14_dimvalues_numeric_values_length defs :
+List.length (numeric_values defs) = List.length (valid_defs defs).
+Proof. exact (numeric_values_length defs). Qed.
+Print Assumptions C14_dimvalues_numeric_values_length.
+
+Theorem C14_dimvalues_numeric_values_nth defs k :
+(k < List.length (valid_defs defs))%nat ->
+  nth k (numeric_values defs) NaN = xq_of_jv (def_numeric_value (nth k (valid_defs defs) JNone)).
+Proof. exact (numeric_values_nth defs k). Qed.
+Print Assumptions C14_dimvalues_numeric_values_nth.
+
+Theorem C14_dimvalues_numeric_values_skip_missing l1 d l2 :
+DimValues.def_missing d = true -> numeric_values (l1 ++ d :: l2) = numeric_values (l1 ++ l2).
+Proof. exact (numeric_values_skip_missing l1 d l2). Qed.
+Print Assumptions C14_dimvalues_numeric_values_skip_missing.
+
+End GenAgreeDimType_C14.
+(*END GenAgreeDimType_C14*)
